@@ -87,6 +87,11 @@ Edits(d) ==
           : i \in {j \in ps : d.decls[j].parent = "" /\ IdsOfKind(d, {"enum", "struct", "packet", "group", "custom"} \ {d.decls[j].kind}) # {}}}
   (* E11: a second field with an existing identifier *)
   \cup {E(11, p, AddField(d, p[1], MkScalar(Fld(d, p).id, 8))) : p \in FSites(d, ps, LAMBDA x, j : x.fields[j].id # "")}
+  (* E11 through the scope: a child redeclares an identifier of an ancestor; a group with a named field is used twice *)
+  \cup {E(11, p \o <<"scope">>, AddField(d, p[1], MkScalar(CF(d, p).id, 8))) : p \in CSites(d, LAMBDA c, f : f.id # "")}
+  \cup {E(11, p \o <<"scope">>, AddField(AddField(d, p[1], [Fld(d, p) EXCEPT !.cons = <<>>]), p[1], [Fld(d, p) EXCEPT !.cons = <<>>]))
+          : p \in FSites(d, ps, LAMBDA x, j : x.fields[j].kind = "group" /\ KindOf(d, x.fields[j].type) = "group"
+                                               /\ \E k \in Fields(DeclOf(d, x.fields[j].type)) : DeclOf(d, x.fields[j].type).fields[k].id # "")}
   (* enums *)
   \cup {E(12, <<i>>, AddTag(d, i, MkTag(d.decls[i].tags[1].id, MaxL(d.decls[i].width)))) : i \in en}
   \cup {E(13, p, AddTag(d, p[1], MkTag("ZZ_NEW", d.decls[p[1]].tags[p[2]].v))) : p \in TSites(d, LAMBDA e, t : e.tags[t].k = "value")}
